@@ -19,7 +19,9 @@ Known == {"nl.bsn", "nl.onderwijsnummer", "pl.nip", "pl.regon", "pt.nif", "dk.cv
           "ca.sin", "il.idnr", "co.nit", "de.vat", "hr.oib", "ro.cui", "ru.inn", "us.rtn", "au.abn", "au.acn", "au.tfn", "jp.cn",
           "ar.cuit", "al.nipt", "by.unp", "cl.rut", "cy.vat", "ec.ci", "ee.registrikood", "gb.nhs", "gb.utr", "gt.nit", "is_.vsk",
           "kr.brn", "me.pib", "mk.edb", "nz.ird", "pe.ruc", "py.ruc", "rs.pib", "tr.vkn", "ua.edrpou", "uy.rut", "ve.rif",
-          "vn.mst", "za.tin", "th.pin", "lt.pvm", "fi.veronumero", "eg.tn", "ma.ice"}
+          "vn.mst", "za.tin", "th.pin", "lt.pvm", "fi.veronumero", "eg.tn", "ma.ice",
+          "es.nie", "es.cif", "gb.vat", "fr.tva", "ie.pps", "cr.cpf", "cr.cpj", "do.rnc", "fi.associationid", "fr.siret", "in_.pan",
+          "ke.pin", "li.peid", "md.idno", "nl.btw", "no.mva"}
 (* formats with further rules (dates, ranges) that are not transcribed: the checksum is only a NECESSARY condition *)
 Necessary == {"no.fodselsnummer", "fi.hetu", "ch.ssn", "lv.pvn", "pl.pesel", "ee.ik"}
 
@@ -28,6 +30,19 @@ LuhnSum(c) == Sum(LAMBDA i : IF (Len(c) - i) % 2 = 1 THEN DigitSum(2 * D(c[i])) 
 Iso1110(c) == FoldLeft(LAMBDA q, ch : ((((IF q = 0 THEN 10 ELSE q) * 2) % 11) + D(ch)) % 10, 5, c)
 IndexIn(ch, s) == CHOOSE i \in 1..Len(s) : s[i] = ch
 In(ch, s) == \E i \in 1..Len(s) : s[i] = ch
+DniLetters == <<84, 82, 87, 65, 71, 77, 89, 70, 80, 68, 88, 66, 78, 74, 90, 83, 81, 86, 72, 76, 67, 75, 69>>
+BsnOk(c) == Len(c) = 9 /\ IsDigits(c) /\ ~AllZero(c) /\ (W(c, <<9, 8, 7, 6, 5, 4, 3, 2>>) + 11 * 9 - D(c[9])) % 11 = 0
+SirenOk(c) == Len(c) = 9 /\ IsDigits(c) /\ Sum(LAMBDA i : IF i % 2 = 0 THEN DigitSum(2 * D(c[i])) ELSE D(c[i]), 9) % 10 = 0
+OrgnrOk(c) == Len(c) = 9 /\ IsDigits(c) /\ W(c, <<3, 2, 7, 6, 5, 4, 3, 2, 1>>) % 11 = 0
+LuhnCheckDigit(c) == CHOOSE d \in 0..9 : LuhnSum(c \o <<48 + d>>) % 10 = 0
+(* ISO 7064 Mod 97-10 over digits and letters (A = 10 .. Z = 35) *)
+Mod97Alnum(c) == FoldLeft(LAMBDA acc, ch : IF ch <= 57 THEN (10 * acc + D(ch)) % 97 ELSE (100 * acc + (ch - 55)) % 97, 0, c)
+(* Irish check letter over 7 digits and an optional second letter: alphabet WABC..V *)
+IeCheck(d7, extra) == LET r == (W(d7, <<8, 7, 6, 5, 4, 3, 2>>) + 9 * extra) % 23 IN IF r = 0 THEN 87 ELSE 64 + r
+IeLetterVal(ch) == IF ch = 87 THEN 0 ELSE ch - 64
+FrAlpha(ch) == (ch \in 48..57) \/ (ch \in 65..90 /\ ch \notin {73, 79})
+FrIdx(ch) == IF ch <= 57 THEN ch - 48 ELSE 10 + (ch - 65) - (IF ch > 73 THEN 1 ELSE 0) - (IF ch > 79 THEN 1 ELSE 0)
+DigitTotal(c) == Sum(LAMBDA i : D(c[i]), Len(c))
 EstonianCheck(c, n) ==        \* check digit over the first n digits: weights 1,2,..,9,1,.. and, when that gives 10, 3,4,..,9,1,2,..
   LET s1 == Sum(LAMBDA i : (((i - 1) % 9) + 1) * D(c[i]), n) % 11
       s2 == Sum(LAMBDA i : (((i + 1) % 9) + 1) * D(c[i]), n) % 11
@@ -158,6 +173,61 @@ AcceptN(m, c) ==
     [] m = "fi.veronumero" -> Len(c) = 12 /\ IsDigits(c)
     [] m = "eg.tn" -> Len(c) = 9 /\ IsDigits(c)
     [] m = "ma.ice" -> Len(c) = 15 /\ IsDigits(c) /\ ModOf(c, 97) = 0
+    [] m = "es.nie" -> /\ Len(c) = 9 /\ c[1] \in {88, 89, 90} /\ IsDigits(SubSeq(c, 2, 8))
+                       /\ c[9] = DniLetters[ModOf(<<48 + (c[1] - 88)>> \o SubSeq(c, 2, 8), 23) + 1]
+    [] m = "es.cif" -> /\ Len(c) = 9 /\ IsDigits(SubSeq(c, 2, 8)) /\ In(c[1], <<65, 66, 67, 68, 69, 70, 71, 72, 74, 78, 80, 81, 82, 83, 85, 86, 87>>)
+                       /\ LET cd == LuhnCheckDigit(SubSeq(c, 2, 8)) IN c[9] = 48 + cd \/ c[9] = <<74, 65, 66, 67, 68, 69, 70, 71, 72, 73>>[cd + 1]
+    [] m = "gb.vat" ->
+         CASE Len(c) = 5 -> /\ IsDigits(SubSeq(c, 3, 5))
+                            /\ \/ SubSeq(c, 1, 2) = <<71, 68>> /\ NumOf(c, 3, 5) < 500
+                               \/ SubSeq(c, 1, 2) = <<72, 65>> /\ NumOf(c, 3, 5) >= 500
+           [] Len(c) = 11 -> /\ SubSeq(c, 3, 6) = <<56, 56, 56, 56>> /\ IsDigits(SubSeq(c, 7, 11))
+                             /\ \/ SubSeq(c, 1, 2) = <<71, 68>> /\ NumOf(c, 7, 9) < 500
+                                \/ SubSeq(c, 1, 2) = <<72, 65>> /\ NumOf(c, 7, 9) >= 500
+                             /\ NumOf(c, 7, 9) % 97 = NumOf(c, 10, 11)
+           [] Len(c) \in {9, 12} -> /\ IsDigits(c)
+                                    /\ LET cs == W(c, <<8, 7, 6, 5, 4, 3, 2, 10, 1>>) % 97
+                                       IN IF NumOf(c, 1, 3) >= 100 THEN cs \in {0, 42, 55} ELSE cs = 0
+           [] OTHER -> FALSE
+    [] m = "fr.tva" -> /\ Len(c) = 11 /\ FrAlpha(c[1]) /\ FrAlpha(c[2]) /\ IsDigits(SubSeq(c, 3, 11))
+                       /\ (SubSeq(c, 3, 5) # <<48, 48, 48>> => SirenOk(SubSeq(c, 3, 11)))
+                       /\ IF IsDigits(SubSeq(c, 1, 2)) THEN NumOf(c, 1, 2) = ModOf(SubSeq(c, 3, 11) \o <<49, 50>>, 97)
+                          ELSE LET chk == IF c[1] <= 57 THEN FrIdx(c[1]) * 24 + FrIdx(c[2]) - 10 ELSE FrIdx(c[1]) * 34 + FrIdx(c[2]) - 100
+                               IN (ModOf(SubSeq(c, 3, 11), 11) + 1 + (chk \div 11)) % 11 = chk % 11
+    [] m = "ie.pps" -> /\ Len(c) \in {8, 9} /\ IsDigits(SubSeq(c, 1, 7)) /\ c[8] \in 65..87
+                       /\ (Len(c) = 9 => c[9] \in {65, 66, 72, 87, 84, 88})
+                       /\ IF Len(c) = 9 /\ c[9] \in {65, 66, 72} THEN c[8] = IeCheck(SubSeq(c, 1, 7), IeLetterVal(c[9]))
+                          ELSE c[8] = IeCheck(SubSeq(c, 1, 7), 0)
+    [] m = "cr.cpf" -> Len(c) = 10 /\ IsDigits(c) /\ c[1] = 48
+    [] m = "cr.cpj" -> /\ Len(c) = 10 /\ IsDigits(c)
+                       /\ LET t == NumOf(c, 2, 4)
+                          IN CASE c[1] = 50 -> t \in {100, 200, 300, 400}
+                               [] c[1] = 51 -> t \in (2..14) \cup (101..110)
+                               [] c[1] = 52 -> t = 0
+                               [] c[1] = 53 -> t = 1
+                               [] OTHER -> FALSE
+    [] m = "do.rnc" -> /\ IsDigits(c)
+                       /\ \/ Len(c) <= 9 /\ <<Len(c), NumOf(c, 1, Len(c))>> \in
+                                {<<9, 101581601>>, <<9, 101582245>>, <<9, 101595422>>, <<9, 101595785>>, <<8, 10233317>>, <<9, 131188691>>,
+                                 <<9, 401007374>>, <<9, 501341601>>, <<9, 501378067>>, <<9, 501620371>>, <<9, 501651319>>, <<9, 501651823>>,
+                                 <<9, 501651845>>, <<9, 501651926>>, <<9, 501656006>>, <<9, 501658167>>, <<9, 501670785>>, <<9, 501676936>>,
+                                 <<9, 501680158>>, <<9, 504654542>>, <<9, 504680029>>, <<9, 504681442>>, <<9, 505038691>>}
+                          \/ Len(c) = 9 /\ ((10 - (W(c, <<7, 9, 8, 6, 5, 4, 3, 2>>) % 11)) % 9) + 1 = D(c[9])
+    [] m = "fi.associationid" -> /\ IsDigits(c) /\ Len(c) >= 1 /\ Len(c) <= 6
+                                 /\ (Len(c) < 3 => NumOf(c, 1, Len(c)) \in {1, 6, 7, 9, 12, 14, 15, 16, 18, 22, 23, 24, 27, 28, 29, 35, 36, 38, 40, 41, 42,
+                                        43, 45, 46, 50, 52, 55, 58, 60, 64, 65, 68, 72, 75, 76, 77, 78, 83, 84, 85, 89, 92})
+    [] m = "fr.siret" -> /\ Len(c) = 14 /\ IsDigits(c) /\ SirenOk(SubSeq(c, 1, 9))
+                         /\ IF NumOf(c, 1, 9) = 356000000 /\ ~(NumOf(c, 10, 14) = 48)
+                            THEN DigitTotal(c) % 5 = 0 ELSE LuhnSum(c) % 10 = 0
+    [] m = "in_.pan" -> /\ Len(c) = 10 /\ (\A i \in 1..5 : c[i] \in 65..90) /\ IsDigits(SubSeq(c, 6, 9)) /\ c[10] \in 65..90
+                        /\ In(c[4], <<65, 66, 67, 70, 71, 72, 76, 74, 80, 84, 75>>) /\ NumOf(c, 6, 9) # 0
+    [] m = "ke.pin" -> Len(c) = 11 /\ c[1] \in {65, 80} /\ IsDigits(SubSeq(c, 2, 10)) /\ c[11] \in 65..90
+    [] m = "li.peid" -> Len(c) >= 4 /\ Len(c) <= 12 /\ IsDigits(c)
+    [] m = "md.idno" -> Len(c) = 13 /\ IsDigits(c) /\ W(c, <<7, 3, 1, 7, 3, 1, 7, 3, 1, 7, 3, 1>>) % 10 = D(c[13])
+    [] m = "nl.btw" -> /\ Len(c) = 12 /\ IsDigits(SubSeq(c, 1, 9)) /\ ~AllZero(SubSeq(c, 1, 9)) /\ c[10] = 66
+                       /\ IsDigits(SubSeq(c, 11, 12)) /\ ~AllZero(SubSeq(c, 11, 12))
+                       /\ (BsnOk(SubSeq(c, 1, 9)) \/ Mod97Alnum(<<78, 76>> \o c) = 1)
+    [] m = "no.mva" -> Len(c) = 12 /\ SubSeq(c, 10, 12) = <<77, 86, 65>> /\ OrgnrOk(SubSeq(c, 1, 9))
 
 (* checksum parts of formats with further rules *)
 NecessaryN(m, c) ==
